@@ -221,14 +221,14 @@ TEXT_MENU = {
 }
 # Short texts whose PARSING is interleaved: every identifier / integer / string literal is a scheduling point (iv).
 PARSE_MENU = {
-    'pa': ("SELECT account, number WHERE number > 1", None, ()),
+    'pa': ("SELECT account WHERE number > 1", None, ()),
     'pb': ("SELECT account WHERE currency = 'EUR'", None, ()),
     'pc': ("SELECT x, s FROM #ht", None, ()),
 }
 PARSE_PAIRS = [('pa', 'pa'), ('pa', 'pb'), ('pb', 'pb'), ('pa', 'pc')]
 TEXT_MENU.update(PARSE_MENU)
 MENU.update(TEXT_MENU)
-TEXT_PAIRS = [('tagg', 'tagg'), ('tagg', 'tagg2'), ('tagg', 'tplain'), ('tplain', 'tplain'), ('tagg', 'agg'), ('tplain', 'named')]
+TEXT_PAIRS = [('tagg', 'tagg'), ('tagg', 'tagg2'), ('tagg', 'tplain'), ('tplain', 'tplain')]
 CANARY = ('canary', 'canary')
 MENU['canary'] = ("SELECT c FROM #canary", None, ())      # not part of IDS: explored separately, see run()
 CONFIGS = ['shared', 'separate', 'different']
@@ -594,16 +594,14 @@ def plan(ctx):
     triples = list(itertools.combinations_with_replacement(IDS, 3))
     if ctx.quick:
         triples = quick_triples(triples)
+    # text statements first: two parses (20-100 ms each) per execution make them the slowest items
+    pts.update({sid: count_points('yield', sid, seed) for sid in TEXT_MENU})
+    for config in ('shared', 'separate'):
+        for ids in TEXT_PAIRS + PARSE_PAIRS:
+            add('yield', config, ids, None, sched.interleavings(*[pts[s] + 1 for s in ids]), 20)
     for config in CONFIGS:
         for ids in pairs:
             add('yield', config, ids, None, sched.interleavings(*[pts[s] + 1 for s in ids]), 600)
-    tpts = {sid: count_points('yield', sid, seed) for sid in TEXT_MENU}
-    pts.update(tpts)
-    for config in ('shared', 'separate'):
-        for ids in TEXT_PAIRS:
-            add('yield', config, ids, None, sched.interleavings(*[pts[s] + 1 for s in ids]), 600)
-        for ids in PARSE_PAIRS:       # two parses per execution (20-30 ms each): small sub-shards
-            add('yield', config, ids, None, sched.interleavings(*[pts[s] + 1 for s in ids]), 30)
     for config in CONFIGS:
         for ids in triples:
             p = sum(pts[s] for s in ids)
@@ -751,7 +749,7 @@ def _run(ctx):
     t2 = time.time()
     if threading.active_count() != 1:
         raise sched.HarnessError('threads alive before forking the workers')
-    total = run_shards(shard_fn, ctx.jobs, specs, nshards=max(1, min(len(specs), ctx.jobs * 8)))
+    total = run_shards(shard_fn, ctx.jobs, specs, nshards=max(1, len(specs)))     # one work item per pool task, in plan order
     t3 = time.time()
 
     smoke = free_running_smoke(ctx)
